@@ -13,19 +13,100 @@ theorem validAmount_eq (s : St) (a : Int) : validAmount s.cap a = !badAmount s a
   by_cases h1 : 0 < a <;> by_cases h2 : a ≤ s.cap <;> simp [h1, h2] <;> omega
 
 theorem checkCounters_ok (s : St) (b : Book) (o : Obs) (inv : Inv s) (ag : Agree b s)
-    (ha : o.avail = s.avail) (hw : o.nwait = s.waiters.length) : checkCounters s.cap b o = none := by
+    (ha : o.avail = s.avail) (hw : o.nwait = s.waiters.length) (hc : o.capv = some s.cap)
+    (hg : o.grants = true → 0 ≤ s.avail) : checkCounters s.cap b o = none := by
   have hnn := amtSum_nonneg s.held inv.heldPos
-  have hc := inv.conserve
-  have hav := inv.availNonneg
+  have hcons := inv.conserve
   unfold checkCounters
-  rw [ag.held, ag.blocked, ha, hw]
-  rw [if_neg (by omega), if_neg (by omega), if_neg (by omega), if_neg (by simp)]
+  rw [ag.held, ag.blocked, ha, hw, hc]
+  have h1 : ¬ ((o.grants && decide (s.cap < amtSum s.held)) = true) := by
+    intro h
+    simp only [Bool.and_eq_true, decide_eq_true_eq] at h
+    have := hg h.1; omega
+  rw [if_neg h1, if_neg (by omega), if_neg (by omega), if_neg (by simp), if_neg (by simp)]
   cases hq : s.waiters with
   | nil => rfl
   | cons w ws =>
     have := inv.headBlocked w ws hq
     simp only
     rw [if_neg (by omega)]
+
+/-- the model hands out capacity only when it has it: after an operation that granted anything
+    (immediately or by waking), `available` is not negative -/
+theorem step_grant_within (s : St) (o : Op) (inv : Inv s)
+    (h : (obsOf o (step s o).2 (step s o).1).grants = true) : 0 ≤ (step s o).1.avail := by
+  cases o with
+  | acquire id a =>
+    simp only [obsOf, Obs.grants] at h
+    rw [step_acquire] at h ⊢
+    split
+    · rename_i hb; simp [hb] at h
+    · split
+      · simp; omega
+      · rename_i hb hf; simp [hb, hf] at h
+  | tryAcquire id a =>
+    simp only [obsOf, Obs.grants] at h
+    rw [step_tryAcquire] at h ⊢
+    split
+    · rename_i hb; simp [hb] at h
+    · split
+      · simp; omega
+      · rename_i hb hf; simp [hb, hf] at h
+  | release id =>
+    simp only [obsOf, Obs.grants] at h
+    rw [step_release] at h ⊢
+    unfold release at h ⊢
+    split
+    · rename_i hn; simp [hn] at h
+    · rename_i g hg
+      dsimp only at h ⊢
+      split
+      · rename_i hex; simp [hg, hex] at h
+      · rename_i hok
+        simp only [hg, hok, if_false] at h
+        have hpos : 0 < wakeN (s.avail + g.2) s.waiters := by
+          cases hn : wakeN (s.avail + g.2) s.waiters with
+          | zero => simp [hn] at h
+          | succ k => omega
+        exact wakeN_pos_nonneg _ _ inv.waitPos hpos
+  | setCapacity c =>
+    simp only [obsOf, Obs.grants] at h
+    rw [step_setCapacity] at h ⊢
+    unfold setCapacity at h ⊢
+    split
+    · rename_i hc; simp [hc] at h
+    · rename_i hc
+      dsimp only at h ⊢
+      split
+      · rename_i hup
+        simp only [hc, hup, if_true, if_false] at h
+        have hpos : 0 < wakeN (s.avail + (c - s.cap)) s.waiters := by
+          cases hn : wakeN (s.avail + (c - s.cap)) s.waiters with
+          | zero => simp [hn] at h
+          | succ k => omega
+        exact wakeN_pos_nonneg _ _ inv.waitPos hpos
+      · rename_i hup; simp [hc, hup] at h
+
+theorem setCapacity_bad (s : St) (c : Int) (hc : c ≤ 0) : setCapacity s c = (s, ⟨.err, []⟩) := by
+  unfold setCapacity; rw [if_pos hc]
+
+theorem setCapacity_ok (s : St) (c : Int) (hc : 0 < c) :
+    (setCapacity s c).2.res = .resized ∧ (setCapacity s c).1.cap = c := by
+  unfold setCapacity; rw [if_neg (by omega)]
+  dsimp only; split <;> exact ⟨rfl, rfl⟩
+
+theorem capAfter_model (s : St) (o : Op) :
+    capAfter s.cap (obsOf o (step s o).2 (step s o).1) = (step s o).1.cap := by
+  cases o with
+  | acquire id a => rw [step_cap s _ (by intro c; simp)]; simp [capAfter, obsOf]
+  | tryAcquire id a => rw [step_cap s _ (by intro c; simp)]; simp [capAfter, obsOf]
+  | release id => rw [step_cap s _ (by intro c; simp)]; simp [capAfter, obsOf]
+  | setCapacity c =>
+    rw [step_setCapacity]
+    by_cases hc : c ≤ 0
+    · rw [setCapacity_bad s c hc]; simp [capAfter, obsOf]
+    · have h := setCapacity_ok s c (by omega)
+      simp only [capAfter, obsOf, h.1, h.2]
 
 theorem findHeld_isSome_of_some {id : Nat} {l : List (Nat × Int)} {g} (h : findHeld id l = some g) :
     (findHeld id l).isSome = true := by simp [h]
@@ -93,7 +174,32 @@ theorem apply_step (s : St) (b : Book) (o : Op) (inv : Inv s) (ag : Agree b s) :
         · simp only [Book.apply, ag.held, ag.blocked, hg, hlen]
           simp
         · exact ⟨by simp [ag.held, ag.blocked], by simp [ag.blocked], ag.resolved⟩
+  | setCapacity c =>
+    simp only [obsOf]
+    rw [step_setCapacity]
+    unfold setCapacity
+    split
+    · rename_i hc
+      refine ⟨b, ?_, ag⟩
+      simp only [Book.apply]
+      rw [if_neg (by omega)]; simp
+    · rename_i hc
+      dsimp only
+      split
+      · have hlen : (List.map (fun x => x.fst) (List.take (wakeN (s.avail + (c - s.cap)) s.waiters) s.waiters)).length
+            = wakeN (s.avail + (c - s.cap)) s.waiters := by
+          simp [List.length_take]; exact Nat.min_eq_left (wakeN_le_length _ _)
+        refine ⟨{ held := b.held ++ b.blocked.take (wakeN (s.avail + (c - s.cap)) s.waiters),
+                  blocked := b.blocked.drop (wakeN (s.avail + (c - s.cap)) s.waiters), resolved := b.resolved }, ?_, ?_⟩
+        · simp only [Book.apply, ag.blocked, hlen]
+          rw [if_neg hc]; simp
+        · exact ⟨by simp [ag.held, ag.blocked], by simp [ag.blocked], ag.resolved⟩
+      · refine ⟨{ held := b.held ++ b.blocked.take 0, blocked := b.blocked.drop 0, resolved := b.resolved }, ?_, ?_⟩
+        · simp only [Book.apply]
+          rw [if_neg hc]; simp
+        · exact ⟨by simp [ag.held], by simp [ag.blocked], ag.resolved⟩
 
+theorem obsOf_capv (o : Op) (out : Out) (s' : St) : (obsOf o out s').capv = some s'.cap := rfl
 theorem obsOf_avail (o : Op) (out : Out) (s' : St) : (obsOf o out s').avail = s'.avail := rfl
 theorem obsOf_nwait (o : Op) (out : Out) (s' : St) : (obsOf o out s').nwait = s'.waiters.length := rfl
 
@@ -105,11 +211,9 @@ theorem judge_model (s : St) (b : Book) (ops : List Op) (inv : Inv s) (ag : Agre
     obtain ⟨b', hap, hag⟩ := apply_step s b o inv ag
     have inv' := step_inv s o inv
     simp only [obsTrace, judge, hap]
-    have hcc := checkCounters_ok (step s o).1 b' (obsOf o (step s o).2 (step s o).1) inv' hag rfl rfl
-    rw [step_cap] at hcc
-    rw [hcc]
-    have := ih (step s o).1 b' inv' hag
-    rw [step_cap] at this
-    exact this
+    have hcc := checkCounters_ok (step s o).1 b' (obsOf o (step s o).2 (step s o).1) inv' hag rfl rfl rfl
+      (step_grant_within s o inv)
+    rw [capAfter_model, hcc]
+    exact ih (step s o).1 b' inv' hag
 
 end HappyModel.C09.Res
